@@ -320,6 +320,8 @@ fn format_string(input: String, options: GetOptsOptions) -> Result<i32> {
 
     let out = &mut stdout();
     let mut session = Session::new(config, Some(out));
+    #[cfg(rustfmt_verif)]
+    rustfmt::verif::ev_invocation(options.check, &[]);
     format_and_emit_report(&mut session, Input::Text(input));
 
     let exit_code = if session.has_operational_errors() || session.has_parsing_errors() {
